@@ -44,6 +44,12 @@ type Ext struct{ Name string }
 
 type TypeV struct{ T types.Type }
 
+// VFile is an opened virtual file.
+type VFile struct {
+	Path string
+	File *StructV
+}
+
 // U64 carries a uint64 the evaluator must not squeeze into int64 (enum values).
 type U64 uint64
 
